@@ -430,8 +430,10 @@ static int do_check(const std::string& prop, int tier, uint64_t base_seed, int j
 			std::string m = v.str("msg");
 			size_t q = m.find("io cache ");
 			if (q != std::string::npos) key += " [" + m.substr(q, m.find_first_of(":+ ", q + 9) - q) + "]";
+			size_t b1 = m.rfind(" ["), b2 = m.rfind(']');
+			if (b1 != std::string::npos && b2 != std::string::npos && b2 > b1 && b2 + 1 == m.size()) key += m.substr(b1, std::min<size_t>(b2 - b1 + 1, 60));
 			cc[key]++;
-			if (!ex.count(key)) ex[key] = m.substr(0, 260);
+			if (!ex.count(key)) ex[key] = strf("(%s #%lld) ", v.str("family").c_str(), (long long)v.num("index")) + m.substr(0, 260);
 		}
 		for (auto& kv : cc) printf("  own-violation class %s x%d e.g. %s\n", kv.first.c_str(), kv.second, ex[kv.first].c_str());
 	}
